@@ -550,9 +550,11 @@ epoll_dispatch(struct event_base *base, struct timeval *tv)
 				ev |= EV_READ;
 			if (what & EPOLLOUT)
 				ev |= EV_WRITE;
-			if (what & EPOLLRDHUP)
-				ev |= EV_CLOSED;
 		}
+		/* The peer's close is reported independently of an error
+		 * condition (e.g. a reset connection has both). */
+		if (what & EPOLLRDHUP)
+			ev |= EV_CLOSED;
 
 		if (!ev)
 			continue;
